@@ -30,13 +30,16 @@ def codesLE : List Nat → List Nat → Bool
 
 def nameLE (a b : String) : Bool := codesLE (a.toList.map Char.toNat) (b.toList.map Char.toNat)
 
-/-- insert a new link into a group (name order); `none`: the name already exists -/
-def h5Insert (name : String) (item : H5) : List (String × H5) → Option (List (String × H5))
-  | [] => some [(name, item)]
+/-- place a link at its position in name order -/
+def insertSorted (name : String) (item : H5) : List (String × H5) → List (String × H5)
+  | [] => [(name, item)]
   | (k, v) :: rest =>
-    if k == name then Option.none
-    else if nameLE name k then some ((name, item) :: (k, v) :: rest)
-    else (h5Insert name item rest).map ((k, v) :: ·)
+    if nameLE name k then (name, item) :: (k, v) :: rest
+    else (k, v) :: insertSorted name item rest
+
+/-- insert a new link into a group (name order); `none`: the name already exists -/
+def h5Insert (name : String) (item : H5) (acc : List (String × H5)) : Option (List (String × H5)) :=
+  if hasKey name acc then Option.none else some (insertSorted name item acc)
 
 /-- link-name rules of `create_group` / `create_dataset` (after the library's own check for
 '/' and NUL): the empty name and "." cannot be created -/
@@ -94,37 +97,41 @@ def h5Create (v : Val) : Option DsetVal :=
 
 /-! ## the writer -/
 
+/-- create one link in the group being written -/
+def addMember (k : String) (item : H5) (acc : List (String × H5)) : Except PyErr (List (String × H5)) :=
+  if !nameCreatable k then .error .valueError
+  else match h5Insert k item acc with
+    | some acc' => .ok acc'
+    | Option.none => .error .valueError
+
+def badName (k : String) : Bool := k.toList.contains '/' || k.toList.contains (Char.ofNat 0)
+
 /-- `write_recursive(group, node)` returning the members it creates -/
 def writeRecursiveFuel : Nat → List (String × Val) → List (String × H5) → Except PyErr (List (String × H5))
   | 0, _, _ => .error unmodelled
   | _, [], acc => .ok acc
-  | fuel + 1, (k, v) :: rest, acc => do
-    if k.toList.contains '/' || k.toList.contains (Char.ofNat 0) then throw .valueError
-    let add (item : H5) : Except PyErr (List (String × H5)) :=
-      if !nameCreatable k then .error .valueError
-      else match h5Insert k item acc with
-        | some acc' => .ok acc'
-        | Option.none => .error .valueError
-    if k == "metadata" then
+  | fuel + 1, (k, v) :: rest, acc =>
+    if badName k then .error .valueError else
+    -- the member this entry creates (`none`: empty metadata is skipped)
+    let item? : Except PyErr (Option H5) :=
       match v with
-      | .dict [] => writeRecursiveFuel fuel rest acc
-      | .dict kvs => do
-          let sub ← writeRecursiveFuel fuel kvs []
-          let acc' ← add (.group sub)
-          writeRecursiveFuel fuel rest acc'
-      | _ => throw .attributeError
-    else
-      match v with
-      | .dict kvs => do
-          let sub ← writeRecursiveFuel fuel kvs []
-          let acc' ← add (.group sub)
-          writeRecursiveFuel fuel rest acc'
+      | .dict kvs =>
+          if k == "metadata" && kvs.isEmpty then .ok Option.none
+          else match writeRecursiveFuel fuel kvs [] with
+            | .ok sub => .ok (some (.group sub))
+            | .error e => .error e
       | _ =>
-        match h5Create v with
-        | some ds => do
-            let acc' ← add (.dset ds)
-            writeRecursiveFuel fuel rest acc'
-        | Option.none => throw .typeError
+          if k == "metadata" then .error .attributeError
+          else match h5Create v with
+            | some ds => .ok (some (.dset ds))
+            | Option.none => .error .typeError
+    match item? with
+    | .error e => .error e
+    | .ok Option.none => writeRecursiveFuel fuel rest acc
+    | .ok (some item) =>
+      match addMember k item acc with
+      | .error e => .error e
+      | .ok acc' => writeRecursiveFuel fuel rest acc'
 
 def Val.size : Val → Nat
   | .dict kvs => 1 + sizeList kvs
@@ -159,10 +166,10 @@ def h5Load : DsetVal → Val
   | .num dt sh d => .arr dt sh d
   | .strs [_, 2] items =>               -- object array of bytes, only ever iterated row-wise
       .list (pairs items)
-  | .strs _ items => .list (items.map fun s => .bytes s.toUTF8.toList)
+  | .strs _ items => .list (items.map fun s => .bytes s.toUTF8.data.toList)
 where
   pairs : List String → List Val
-    | a :: b :: rest => .list [.bytes a.toUTF8.toList, .bytes b.toUTF8.toList] :: pairs rest
+    | a :: b :: rest => .list [.bytes a.toUTF8.data.toList, .bytes b.toUTF8.data.toList] :: pairs rest
     | _ => []
 
 /-- `hdf2dict` -/
